@@ -185,7 +185,8 @@ theorem good_removeConflict_closure {s : Store} {L : Ledger} (hg : Good s L) {u 
 /-- **event *abandoned*** -/
 theorem good_abandoned {s : Store} {L : Ledger} (hg : Good s L) {t : Tx} (now : Nat)
     (hc : Consistent L (.abandoned t)) :
-    ∃ s', stepEvent s now (.abandoned t) = .ok s' ∧ Good s' (Ledger.apply L (.abandoned t)) := by
+    ∃ s', stepEvent s now (.abandoned t) = .ok s' ∧ Good s' (Ledger.apply L (.abandoned t)) ∧
+      (NoConflict L → NoConflict (Ledger.apply L (.abandoned t))) := by
   have ht : t ∈ L.pool := by
     have := hc.extra
     simpa [Ledger.extra] using this
@@ -194,6 +195,6 @@ theorem good_abandoned {s : Store} {L : Ledger} (hg : Good s L) {t : Tx} (now : 
   refine ⟨s', h1, ?_⟩
   simp only [Ledger.apply, hin, if_true]
   rw [without_eq_minus]
-  exact h2
+  exact ⟨h2, fun hn => noConflict_minus hn _ _⟩
 
 end TxStore
